@@ -993,6 +993,13 @@ pub fn sched_specs(prop: &str, tier: &str) -> Vec<HistSpec> {
                 s.o_c04 = true;
                 out.push(s);
             }
+            // a write request above 1 MiB queued behind a small one (and before one)
+            for sh in [vec![Sym::A, Sym::F, Sym::Amega, Sym::F, Sym::W, Sym::W], vec![Sym::Amega, Sym::F, Sym::A, Sym::F, Sym::W, Sym::W]] {
+                let mut s = base_spec(prop, schedx::from_syms(&sh), Cfg::default());
+                s.fixed = true;
+                s.o_c04 = true;
+                out.push(s);
+            }
             let alpha = [Sym::A, Sym::F, Sym::W, Sym::Abig, Sym::T, Sym::Pfirst];
             let max_len = if thorough { 5 } else { 4 };
             for len in 1..=max_len {
@@ -1251,6 +1258,19 @@ pub fn c14_specs(tier: &str) -> Vec<crate::c14::C14Spec> {
     let thorough = tier == "thorough";
     let alpha = [Sym::A, Sym::Pfirst, Sym::F, Sym::W];
     let mut out = vec![];
+    // scale: one append of 70 (thorough also 140) entries under 2 records per chunk,
+    // a purge that makes dozens of chunk files obsolete, flush, ack, drop — one
+    // schedule (too long to explore); the whole second-instance script follows
+    for n in if thorough { vec![70u64, 140] } else { vec![70] } {
+        let entries: Vec<_> = (0..n).map(|i| ((1u64, i), crate::alphabet::payload((1, i), 0))).collect();
+        let phase1 = vec![
+            SOp::W(crate::model::Op::Append(entries)),
+            SOp::W(crate::model::Op::Purge((1, n - 5))),
+            SOp::Flush,
+            SOp::WaitAck,
+        ];
+        out.push(crate::c14::C14Spec { prop: "C14".to_string(), phase1, cfg: Cfg::records(2), max_executions: 1, unwind_drop: false, worker_faults: false, caller_first_only: true });
+    }
     let max_prefix = if thorough { 3 } else { 2 };
     for plen in 0..=max_prefix {
         // quick tier: of the length-2 prefixes only those with a purge (a chunk
@@ -1289,19 +1309,19 @@ pub fn c14_specs(tier: &str) -> Vec<crate::c14::C14Spec> {
                     if plen >= 2 && !thorough && (c.max_records == Some(2) || tail >= 1) {
                         continue;
                     }
-                    out.push(crate::c14::C14Spec { prop: "C14".to_string(), phase1: syms_ops.clone(), cfg: c, max_executions: 300_000, unwind_drop: false, worker_faults: false });
+                    out.push(crate::c14::C14Spec { prop: "C14".to_string(), phase1: syms_ops.clone(), cfg: c, max_executions: 300_000, unwind_drop: false, worker_faults: false, caller_first_only: false });
                     // a worker that fails (EIO at a write, fdatasync or unlink): quick tier for
                     // the shapes with work pending behind the last acknowledgement
                     let pending_removal0 = prefix.iter().any(|o| matches!(o, SOp::W(crate::model::Op::Purge(_))));
                     if thorough || (pending_removal0 && tail == 0 && plen <= 2) || (plen == 0 && tail >= 1 && c.max_records == Some(2)) {
-                        out.push(crate::c14::C14Spec { prop: "C14".to_string(), phase1: syms_ops.clone(), cfg: c, max_executions: 300_000, unwind_drop: false, worker_faults: true });
+                        out.push(crate::c14::C14Spec { prop: "C14".to_string(), phase1: syms_ops.clone(), cfg: c, max_executions: 300_000, unwind_drop: false, worker_faults: true, caller_first_only: false });
                     }
                     // the same, dropped by unwinding: quick tier for the purge prefixes
                     // (a removal is pending behind the acknowledged flush) and the
                     // empty prefix with a rotated tail pending
                     let pending_removal = prefix.iter().any(|o| matches!(o, SOp::W(crate::model::Op::Purge(_))));
                     if thorough || (pending_removal && tail == 0) || (plen == 0 && tail == 2 && c.max_records == Some(3)) {
-                        out.push(crate::c14::C14Spec { prop: "C14".to_string(), phase1: syms_ops.clone(), cfg: c, max_executions: 300_000, unwind_drop: true, worker_faults: false });
+                        out.push(crate::c14::C14Spec { prop: "C14".to_string(), phase1: syms_ops.clone(), cfg: c, max_executions: 300_000, unwind_drop: true, worker_faults: false, caller_first_only: false });
                     }
                 }
             }
@@ -1470,7 +1490,7 @@ fn c14_shard(tier: &str, shard: usize, of: usize) -> i32 {
             break;
         }
         // deviation at the join: the wait for the worker may give up (timer lands first)
-        if !s.worker_faults {
+        if !s.worker_faults && !s.caller_first_only {
             if let Err(schedx::Machinery(m)) = crate::c14::impatient_probe(s, &mut vios, &mut stats) {
                 machinery = Some(m);
                 break;
